@@ -15,15 +15,17 @@
 (*      request), exported again: bd / ad = item projections before / after, ex1 / ex2 = digests of the exports            *)
 (*  kind "rule"   Rule.export() -> parse_rule -> export(): ex1, oc, ex2                                                    *)
 (* Clauses (every event gets a total verdict):                                                                            *)
-(*  (a) LabelReachesNode, InvalidLabelAnswered, InvalidLabelForeignError                                                  *)
+(*  (a) LabelReachesNode, InvalidLabelAnswered, InvalidLabelForeignError; NextStepLabel (op.hasn / op.nsl: the label that  *)
+(*      get_next_step_label gives for the step just appended - what app/integral.py returns as selected_item - is its label) *)
 (*  (b) OthersUntouched, EffectExact (the tree after = the X07_Tree operator applied to the tree before; black boxes -      *)
 (*      rule results, sub-goal statements, the negated condition - are read from the tree after), TreeShape, StepIds       *)
 (*  (c) FinishedPropagates (reported is_finished of EVERY goal = Fin over the reported leaf verdicts), FinishedNoOpenLeaf,  *)
 (*      CalcClosedIffSame (an `=` calculation proof is closed iff both last expressions are the same)                      *)
-(*  (d) FactsLemmas, FactsDefinitions (exactly the items before i), FactsConditions, FactsHypotheses (exactly the path)    *)
+(*  (d) FactsLemmas, FactsDefinitions (exactly the items before i), FactsConditions, FactsHypotheses (exactly the path),   *)
+(*      GetFactsIsStatement (get_facts of an item = its statement; items = [k, e, l, r, pd, gf, gfo])                      *)
 (*  (e) ExportRaises, ReparseRaises, ReparseEqualTree, ExportStable, RuleReparseRaises, RuleExportStable                  *)
 (* Divergence: an operation that raised changed the tree; a step id outside the calculation; code /= X07_CompFile; the     *)
-(* transcription CodeResolve /= the code.                                                                                 *)
+(* transcription CodeResolve /= the code; parse_rule changed the dictionary it was given.                                  *)
 EXTENDS X07_Tree, TLC, TraceLib
 Stmt(n) == <<n.e, n.l, n.r, n.pd>>
 GoalLabs(T) == { g.lab : g \in Goals(T) }
@@ -78,10 +80,12 @@ FactClauses(full, items, i) ==
   \cup (IF \A g \in G : SeqToSet(g.dfs) = ExpDfs(items, i) THEN {} ELSE {"FactsDefinitions"})
   \cup (IF \A g \in G : SeqToSet(g.cnd) = CondsOnPath(T, g.lab) THEN {} ELSE {"FactsConditions"})
   \cup (IF \A g \in G : SeqToSet(g.hyp) = HypsOnPath(T, g.lab) THEN {} ELSE {"FactsHypotheses"})
+  \cup (IF \A j \in 1..Len(items) : items[j].gfo => items[j].gf = (IF items[j].k \in {"def", "goal"} THEN <<items[j].e>> ELSE <<>>) THEN {} ELSE {"GetFactsIsStatement"})
 OpClauses(e) ==
   LET full == SeqToSet(e.at)  A == CoreT(full) IN
   (IF Others(e) THEN {} ELSE {"OthersUntouched"})
   \cup (IF e.oc = "ok" /\ e.dom /\ ~EffectExact(e) THEN {"EffectExact"} ELSE {})
+  \cup (IF e.oc = "ok" /\ e.op.nm = "perform" /\ e.op.hasn /\ e.op.nsl # Append(e.op.lab, e.op.id + 1) THEN {"NextStepLabel"} ELSE {})
   \cup (IF Shape(A) THEN {} ELSE {"TreeShape"})
   \cup (IF e.dom /\ ~StepIdsArePositions(A) THEN {"StepIds"} ELSE {})
   \cup FinClauses(full)
@@ -107,6 +111,7 @@ Diverges(e) == \/ e.kind = "op" /\ e.oc = "exc" /\ CoreT(SeqToSet(e.at)) # CoreT
                \/ e.kind = "op" /\ ~e.dom
                \/ e.kind = "op" /\ e.hasx /\ CoreT(SeqToSet(e.at)) # SeqToSet(e.expect)
                \/ e.kind = "labels" /\ LabelDiverges(e)
+               \/ e.kind = "rule" /\ e.inmut
 TNext == LET e == Trace[l] IN TStep(e.tid, ClausesOf(e), Nontrivial(e), Diverges(e))
 TSpec == TInit /\ [][TNext]_l
 =============================================================================
